@@ -41,10 +41,8 @@ func VH_C18_sam_commands() {
 		start = 0
 	case 3: // empty SAM stream
 		samTxt = ""
-		vAllowCrash(true)
 	case 4: // header-less SAM stream
 		samTxt = "q1\t0\tref\t2\t60\t4M\t*\t0\t0\tACGT\t*\n"
-		vAllowCrash(true)
 	case 5: // more than one record in --reference (toPairAlign / variants)
 		ref = []byte(">ref\nACGTAC\n>r2\nACGTAC\n")
 	case 6: // invalid symbol in --reference
